@@ -240,4 +240,48 @@ example : StoreWf exQ ∧ ObjCoh exQ ∧ (getState exQ 1 "kc").2 = some "" ∧ (
     obtain ⟨rfl, rfl⟩ := hacc a acc h
     decide
 
+-- ------------------------------------------------------------------------------------ cache evictions and reopen cycles
+
+/-- **a cache eviction changes no read**: in a ledger whose storage cache agrees with the database (`CacheDb`: what holds from the
+commit of one block to the flush of the next — the model driver evaluates it at every eviction and every reopen of every generated
+history), dropping the cache entry of an account, or one key of it, leaves every storage read of every account as it was (up to nil /
+empty, which `bytes.Equal` does not tell apart) — whatever the block in progress has written, memoised or loaded so far -/
+theorem C13_eviction_keeps_every_read (l : L) (h : CacheDb l) (a : Addr) (b : Addr) (k : String) :
+    ((getState { l with cache := { l.cache with state := KV.erase l.cache.state a } } b k).2).getD "" = ((getState l b k).2).getD "" := by
+  rw [getState_peek, getState_peek]
+  exact reads_agree_of_cacheDb l { l with cache := { l.cache with state := KV.erase l.cache.state a } } rfl rfl h (h.evictAcct a) b k
+
+theorem C13_key_eviction_keeps_every_read (l : L) (h : CacheDb l) (a : Addr) (m0 : KV String Bytes) (k0 : String)
+    (hm0 : KV.get l.cache.state a = some m0) (b : Addr) (k : String) :
+    ((getState { l with cache := { l.cache with state := KV.set l.cache.state a (KV.erase m0 k0) } } b k).2).getD "" =
+      ((getState l b k).2).getD "" := by
+  rw [getState_peek, getState_peek]
+  exact reads_agree_of_cacheDb l { l with cache := { l.cache with state := KV.set l.cache.state a (KV.erase m0 k0) } } rfl rfl h (h.evictKey a m0 k0 hm0) b k
+
+/-- **a reopen changes no read**: a ledger between two blocks (no account objects) whose storage cache agrees with the database,
+closed and opened again on the same database (all caches empty): every storage key of every account reads what it read before -/
+theorem C13_reopen_keeps_every_read (l l2 : L) (hno : l.accounts = []) (h : CacheDb l) (hr : reopen l = some l2) (a : Addr) (k : String) :
+    ((getState l2 a k).2).getD "" = ((getState l a k).2).getD "" := by
+  obtain ⟨r1, r2, r3⟩ := reopen_facts l l2 hr
+  rw [getState_peek, getState_peek]
+  refine reads_agree_of_cacheDb l l2 (by rw [r1, hno]) r3 h ?_ a k
+  intro b m k' v hm _
+  rw [r2] at hm
+  simp [KV.get] at hm
+
+/-- non-vacuity: a cache that holds the value the database holds for one key and an emptied value for a key the database does not hold -/
+example : CacheDb { cache := { state := [(1, [("k", some "v"), ("gone", some "")])] }, db := { state := [((1, "k"), "v")] } } := by
+  intro a m k v hm hk
+  simp only [KV.get] at hm
+  split at hm
+  · injection hm with hm
+    subst hm
+    simp only [KV.get] at hk
+    split at hk
+    · injection hk with hk; subst hk; rename_i e1 e2; subst e1; subst e2; decide
+    · split at hk
+      · injection hk with hk; subst hk; rename_i e1 _ e2; subst e1; subst e2; decide
+      · cases hk
+  · cases hm
+
 end Bxh.Props.C13
